@@ -211,3 +211,57 @@ Proof.
   - exists 0. split; [simpl; lia|vm_compute; reflexivity].
   - apply harmonic_check_sound. vm_compute. reflexivity.
 Qed.
+
+(* =========================================================================================== *)
+(** * The same clauses about the terms REGENERATED FROM sknetwork/regression/diffusion.py
+
+    [src_dirichlet_fit] / [src_diffusion_fit] (Gen/NpDiffusion.v) are the numeric cores of Dirichlet.fit and Diffusion.fit
+    (with init_temperatures inlined), translated on every run by harness/translators/npvec.py into the array language
+    of Model/NpVec.v; [rvdenote] is that language's NumPy / SciPy semantics over R.  The theorems evaluate the source
+    terms on ARBITRARY non-negative adjacency matrices (as index functions), seed vectors, [init] and iteration counts. *)
+From SKN Require Import Model.NpExpr Model.NpVec Gen.NpDiffusion Proofs.NpVecProofs.
+From Coq Require Import Reals Lra.
+Local Open Scope R_scope.
+
+(** Dirichlet: on a graph where every node has an outgoing edge, every value lies between the smallest and the largest
+    initial temperature, for any number of iterations, and the seeds keep their temperatures. *)
+Theorem source_dirichlet_bounds_and_clamp (n : nat) (A : nat -> nat -> R) (s : nat -> R) (init : vvalue R) (k : nat)
+        (alpha lo hi : R) :
+  nonneg_mat n A -> (forall i, (i < n)%nat -> 0 < rsum n (A i)) -> init_ok init ->
+  (forall i, (i < n)%nat -> lo <= temp0 n s init i <= hi) ->
+  exists f, rvdenote (env_fit n A s init k alpha) src_dirichlet_fit = Some (WV n f) /\
+            (forall i, (i < n)%nat -> lo <= f i <= hi) /\
+            (forall i, (i < n)%nat -> 0 <= s i -> f i = s i).
+Proof. exact (NpVecProofs.source_dirichlet_bounds_and_clamp n A s init k alpha lo hi). Qed.
+Print Assumptions source_dirichlet_bounds_and_clamp.
+
+(** Diffusion: the same interval, for every damping factor in [0,1], with no condition on sinks (the coded operator
+    (1 - a) I + a (normalize(A^T) + diag(null rows)) is row-stochastic). *)
+Theorem source_diffusion_bounds (n : nat) (A : nat -> nat -> R) (s : nat -> R) (init : vvalue R) (k : nat)
+        (alpha lo hi : R) :
+  nonneg_mat n A -> 0 <= alpha <= 1 -> init_ok init ->
+  (forall i, (i < n)%nat -> lo <= temp0 n s init i <= hi) ->
+  exists f, rvdenote (env_fit n A s init k alpha) src_diffusion_fit = Some (WV n f) /\
+            (forall i, (i < n)%nat -> lo <= f i <= hi).
+Proof. exact (NpVecProofs.source_diffusion_bounds n A s init k alpha lo hi). Qed.
+Print Assumptions source_diffusion_bounds.
+
+(** With init=None the initial temperatures lie between the smallest and the largest SEED temperature. *)
+Theorem source_seed_mean_in_range (n : nat) (s : nat -> R) (lo hi : R) :
+  (exists i, (i < n)%nat /\ 0 <= s i) -> (forall i, (i < n)%nat -> 0 <= s i -> lo <= s i <= hi) ->
+  forall i, (i < n)%nat -> lo <= temp0 n s WNone i <= hi.
+Proof. exact (NpVecProofs.seed_mean_in_range n s lo hi). Qed.
+Print Assumptions source_seed_mean_in_range.
+
+(** The hypotheses are met by a concrete weighted 2-node graph with one seed. *)
+Example c14_nonvacuous_source :
+  nonneg_mat 2 (fun i j => if Nat.eqb i j then 0 else 2) /\
+  (forall i, (i < 2)%nat -> 0 < rsum 2 ((fun i j => if Nat.eqb i j then 0 else 2) i)) /\
+  init_ok (@WNone R) /\ (exists i, (i < 2)%nat /\ 0 <= (fun i => if Nat.eqb i 0 then 3 else -1) i).
+Proof.
+  split; [|split; [|split]].
+  - intros i j _ _. destruct (Nat.eqb i j); lra.
+  - intros [|[|i]] Hi; try lia; unfold rsum, vsum, Gnn.g_sum; cbn; lra.
+  - left. reflexivity.
+  - exists 0%nat. split; [lia | cbn; lra].
+Qed.
